@@ -19,7 +19,7 @@ from vf.sim.scenario import Sim
 LEVEL = "exploration"
 RULE = ("histories of 1-30 steps on one APIClient over several consecutive sessions from {start_connection, finish_connection, connect (awaited / left pending / "
         "1 ms later) against a device that is ok | unresolvable | refusing | hanging at TCP | sending garbage at hello | rejecting the password | silent; "
-        "disconnect(), disconnect(force=True), cancel of the pending call, device EOF / RST / DisconnectRequest / garbage, a request whose answer shares one chunk with a DisconnectRequest / garbage, "
+        "disconnect() (awaited or left pending, the device acknowledging it or not), disconnect(force=True), cancel of the pending call (connect phase or disconnect), device EOF / RST / DisconnectRequest / garbage, a request whose answer shares one chunk with a DisconnectRequest / garbage, "
         "a stop callback that reconnects at once from inside the callback, a public API method (rotating over every recipe of the API sweep: commands, "
         "subscriptions, requests), advance 1 ms / 1 s / 100 s}; ALL histories up to length 3 (quick) / 4 (thorough) over a "
         "12-symbol alphabet followed by a start probe, plus seeded random histories. Model over the class-boundary event log: attempt = a start/finish call is "
@@ -153,7 +153,7 @@ def run_history(hist: list[Any]) -> dict[str, Any]:
                     calls.append(r)
                     wait(r, "none")
                 elif op == "cancel":
-                    pend = [c for c in calls if not c.done and c.name in ("start", "finish", "connect")]
+                    pend = [c for c in calls if not c.done and c.name in ("start", "finish", "connect", "disconnect")]
                     if pend:
                         sim.cancel(pend[-1])
                         sim.settle()
@@ -161,6 +161,8 @@ def run_history(hist: list[Any]) -> dict[str, Any]:
                         skipped += 1
                 elif op == "arm-reconnect":
                     armed["n"] += 1
+                elif op == "disc-answer":
+                    cfg.answer_disconnect = bool(step[1])   # False: the device never acknowledges a DisconnectRequest (disconnect() waits, can be cancelled)
                 elif op == "dev":
                     live = [c for c in dev.conns if not c.sock.closed]
                     if not live:
@@ -344,9 +346,10 @@ def judge(hist: list[Any], o: dict[str, Any]) -> tuple[list[tuple[str, str]], di
             for v in sf_pending.values():
                 v["dying"] = True
         elif kind == "ret:disconnect":
-            if alive:
-                last_reason = "after disconnect() of a live session"
-            alive = False
+            if e[5] == "ok":          # (a disconnect() that was cancelled or failed has not ended the session)
+                if alive:
+                    last_reason = "after disconnect() of a live session"
+                alive = False
         elif kind == "api":
             p = e
             if alive and cur_conn not in conn_closed:
@@ -370,7 +373,7 @@ def judge(hist: list[Any], o: dict[str, Any]) -> tuple[list[tuple[str, str]], di
 ALPHABET: list[Any] = [
     ["start", "ok", "done"], ["start", "ok", "none"], ["start", "refuse", "done"], ["finish", "done"], ["finish", "none"],
     ["disconnect", "done"], ["force"], ["cancel"], ["dev", "eof"], ["api", 0], ["run", 0.001], ["connect", "ok", "done"],
-    ["arm-reconnect"], ["dev", "resp+discreq"],
+    ["arm-reconnect"], ["dev", "resp+discreq"], ["disc-answer", False], ["disconnect", "none"],
 ]
 
 
@@ -386,7 +389,9 @@ def gen_history(rng: Any) -> list[Any]:
         elif r < 0.48:
             h.append(["connect", rng.choice(WORLDS) if rng.random() < 0.4 else "ok", rng.choice(["done", "done", "none", "ms"])])
         elif r < 0.58:
-            h.append(["disconnect", rng.choice(["done", "none"])])
+            if rng.random() < 0.35:
+                h.append(["disc-answer", rng.random() < 0.4])
+            h.append(["disconnect", rng.choice(["done", "none", "none"])])
         elif r < 0.65:
             h.append(["force"])
         elif r < 0.70:
@@ -449,7 +454,7 @@ def shard(ctx: Ctx) -> None:
 
 
 def exhaustive(tier: str) -> Any:
-    return [f"all histories of length <= {4 if tier == 'thorough' else 3} over the 14-symbol alphabet {ALPHABET}, each followed by a final start probe"]
+    return [f"all histories of length <= {4 if tier == 'thorough' else 3} over the 16-symbol alphabet {ALPHABET}, each followed by a final start probe"]
 
 
 def replay(spec: dict[str, Any]) -> int:
